@@ -1,7 +1,9 @@
 #!/bin/sh
-# developer helper: seed_try.sh <seed dir under /verif/seeded> [props...]  -- applies the seeded patch to /repo, runs checks, reverts
+# developer helper: seed_try.sh <seed dir under /verif/seeded> [props...]
+# applies the seeded patch to a scratch worktree (/tmp/mut, at /repo's HEAD), runs the checks against it, reverts
 sd=/verif/seeded/$1; shift
-git -C /repo diff --quiet || { echo "/repo dirty"; exit 9; }
-git -C /repo apply "$sd/patch.diff" || { echo "patch does not apply"; exit 8; }
-for p in "$@"; do /verif/bin/check $p 2>&1 | grep -E "VIOLATION|OK property|UNDECIDED|KNOWN" | cut -c1-250 | head -6; done
-git -C /repo checkout -- .
+[ -d /tmp/mut ] || git -C /repo worktree add -f /tmp/mut HEAD >/dev/null 2>&1
+git -C /tmp/mut checkout -q -- . ; git -C /tmp/mut checkout -q --detach $(git -C /repo rev-parse HEAD) || exit 8
+git -C /tmp/mut apply "$sd/patch.diff" || { echo "patch does not apply"; exit 8; }
+for p in "$@"; do VERIF_REPO=/tmp/mut /verif/bin/check $p 2>&1 | grep -E "VIOLATION|OK property|UNDECIDED|KNOWN" | cut -c1-250 | head -${MUT_LINES:-6}; done
+git -C /tmp/mut checkout -q -- .
